@@ -45,6 +45,7 @@ def floatOps (op : String) (a : List String) : Option String :=
   | "flt.canon", [k, h] => some (fltCanon k h)
   | "flt.rt", [k, h] => some (fltRt k h)
   | "flt.dec", [_, _] => some "ok"
+  | "flt.decround", [_, _] => some "ok"
   | "flt.spell16", [_, _, _] => some "ok"
   | _, _ => none
 end Llir.Drv
